@@ -11,6 +11,7 @@ import (
 	"path/filepath"
 	"runtime"
 	"sort"
+	"strconv"
 	"strings"
 	"testing"
 	"time"
@@ -30,11 +31,11 @@ type Outcome struct {
 	// among several ready select cases). A run is an exact function of (choice list,
 	// Unseeded); replay re-rolls until the runtime repeats the recorded picks.
 	Unseeded uint64
-	Faults     map[string]int
-	Probes     map[string]int
-	SimNanos   int64
-	Steps      int
-	Sample     interface{}
+	Faults   map[string]int
+	Probes   map[string]int
+	SimNanos int64
+	Steps    int
+	Sample   interface{}
 }
 
 func (o *Outcome) fault(name string, n int) {
@@ -154,6 +155,7 @@ func worker(t *testing.T, p *Prop, tier string, base uint64, from, to int, outPa
 	}
 	seen := map[uint64]bool{}
 	race := newRaceWatch()
+	known := loadKnown()
 	for i := from; i < to; i++ {
 		if time.Now().After(deadline) {
 			break
@@ -171,7 +173,8 @@ func worker(t *testing.T, p *Prop, tier string, base uint64, from, to int, outPa
 		if txt := race.check(); txt != "" {
 			// a data race explains (and takes priority over) any other misbehaviour of the run
 			o.Class = ""
-			o.fail("race", raceKey(txt), txt)
+			k, rep := pickRace(txt, known)
+			o.fail("race", k, clip(rep, 5000))
 		}
 		out.Runs++
 		if o.Nontrivial && !seen[o.Hash] {
@@ -228,7 +231,8 @@ func replayOnce(t *testing.T, p *Prop, v *rawViolation) (Outcome, string) {
 	o, fault := runGuarded(t, p, ch, v.Tier)
 	if txt := race.check(); txt != "" && fault == "" {
 		o.Class = ""
-		o.fail("race", raceKey(txt), txt)
+		k, rep := pickRace(txt, loadKnown())
+		o.fail("race", k, clip(rep, 5000))
 	}
 	return o, fault
 }
@@ -391,26 +395,66 @@ func (w *raceWatch) check() string {
 	}
 	txt := string(b[w.off:])
 	w.off = st.Size()
-	if len(txt) > 6000 {
-		txt = txt[:6000]
+	if len(txt) > 1<<20 {
+		txt = txt[:1<<20]
 	}
 	return txt
 }
 
-// raceKey: the first non-runtime function of each of the two access stacks.
+// splitRaceReports cuts a race log excerpt into individual reports.
+func splitRaceReports(txt string) []string {
+	var out []string
+	for _, part := range strings.Split(txt, "==================") {
+		if strings.Contains(part, "DATA RACE") {
+			out = append(out, strings.TrimSpace(part))
+		}
+	}
+	return out
+}
+
+var srcCache = map[string][]string{}
+
+func srcLine(file string, line int) string {
+	l, ok := srcCache[file]
+	if !ok {
+		b, _ := os.ReadFile(file)
+		l = strings.Split(string(b), "\n")
+		srcCache[file] = l
+	}
+	if line >= 1 && line <= len(l) {
+		return l[line-1]
+	}
+	return ""
+}
+
+// raceKey identifies a report by the first non-runtime frame of each of the two access
+// stacks. Reports whose two accesses are both statements of the per-call-site function
+// value cache (variables cachedfunv/cachedfun in fast/call*ret*.go) get one common key.
 func raceKey(txt string) string {
 	var fns []string
+	cache := 0
 	lines := strings.Split(txt, "\n")
 	for i, l := range lines {
+		l = strings.TrimSpace(l)
 		if strings.HasPrefix(l, "Write at") || strings.HasPrefix(l, "Read at") || strings.HasPrefix(l, "Previous write at") || strings.HasPrefix(l, "Previous read at") ||
 			strings.HasPrefix(l, "Atomic") || strings.HasPrefix(l, "Previous atomic") {
-			for j := i + 1; j < len(lines) && strings.TrimSpace(lines[j]) != ""; j += 2 {
+			for j := i + 1; j+1 < len(lines) && strings.TrimSpace(lines[j]) != ""; j += 2 {
 				fn := strings.TrimSpace(lines[j])
 				if strings.HasPrefix(fn, "runtime.") || strings.HasPrefix(fn, "reflect.") || strings.HasPrefix(fn, "sync") {
 					continue
 				}
 				fn = strings.TrimSuffix(fn, "()")
 				fns = append(fns, fn)
+				// "      /repo/fast/call1ret1.go:1272 +0xdc"
+				loc := strings.Fields(strings.TrimSpace(lines[j+1]))
+				if len(loc) > 0 {
+					if k := strings.LastIndex(loc[0], ":"); k > 0 {
+						ln, _ := strconv.Atoi(loc[0][k+1:])
+						if strings.Contains(srcLine(loc[0][:k], ln), "cachedfun") {
+							cache++
+						}
+					}
+				}
 				break
 			}
 		}
@@ -418,18 +462,43 @@ func raceKey(txt string) string {
 			break
 		}
 	}
+	if len(fns) == 2 && cache == 2 {
+		return "race:callsite-funcache"
+	}
 	return "race:" + strings.Join(fns, "<->")
+}
+
+// pickRace chooses which report of txt describes the run: an unlisted one if there is any.
+func pickRace(txt string, known []knownFinding) (key, report string) {
+	reps := splitRaceReports(txt)
+	if len(reps) == 0 {
+		return raceKey(txt), txt
+	}
+	for _, r := range reps {
+		k := raceKey(r)
+		listed := false
+		for _, kf := range known {
+			if kf.Status == "known" && kf.Class == "race" && kf.Key == k {
+				listed = true
+			}
+		}
+		if !listed {
+			return k, r
+		}
+	}
+	return raceKey(reps[0]), reps[0]
 }
 
 // ---------------------------------------------------------------- parent: run
 
 type knownFinding struct {
-	Property string `json:"property"`
-	Status   string `json:"status"` // "known" | "fixed"
-	Class    string `json:"class"`
-	Key      string `json:"key"`
-	What     string `json:"what"`
-	Commit   string `json:"commit,omitempty"`
+	Property string   `json:"property"`
+	AlsoIn   []string `json:"also_seen_in,omitempty"`
+	Status   string   `json:"status"` // "known" | "fixed"
+	Class    string   `json:"class"`
+	Key      string   `json:"key"`
+	What     string   `json:"what"`
+	Commit   string   `json:"commit,omitempty"`
 }
 
 func loadKnown() []knownFinding {
@@ -481,62 +550,87 @@ func parentRun(p *Prop, tier string, base uint64, nworkers int) int {
 		return 2
 	}
 	defer os.RemoveAll(tmp)
-	if nworkers > total {
-		nworkers = total
-	}
 	if nworkers < 1 {
 		nworkers = 1
 	}
-	// interleaved chunks so that a wall-clock cut still covers the whole index range
+	// job queue: chunks of at most chunkMax runs, nworkers processes at a time. Short-lived
+	// workers bound the memory held by leaked (deadlocked) simulated programs.
 	type job struct {
-		cmd *exec.Cmd
-		out string
-		buf *bytes.Buffer
+		from, to int
+		cmd      *exec.Cmd
+		out      string
+		buf      *bytes.Buffer
 	}
+	chunkMax := 250
 	chunk := (total + nworkers - 1) / nworkers
-	var jobs []job
-	for w := 0; w < nworkers; w++ {
-		from, to := w*chunk, (w+1)*chunk
+	if chunk > chunkMax {
+		chunk = chunkMax
+	}
+	var queue []*job
+	for from := 0; from < total; from += chunk {
+		to := from + chunk
 		if to > total {
 			to = total
 		}
-		if from >= to {
-			break
-		}
-		out := filepath.Join(tmp, fmt.Sprintf("w%d.json", w))
-		cmd := childCmd("-sim.cmd=worker", "-sim.prop="+p.ID, "-sim.tier="+tier, fmt.Sprintf("-sim.seed=%d", base),
-			fmt.Sprintf("-sim.from=%d", from), fmt.Sprintf("-sim.to=%d", to), "-sim.out="+out,
-			fmt.Sprintf("-sim.deadline=%d", deadline.Unix()))
-		cmd.Env = append(cmd.Env, "SIM_RACE_LOG="+filepath.Join(tmp, fmt.Sprintf("race%d", w)),
-			"GORACE=halt_on_error=0 exitcode=0 log_path="+filepath.Join(tmp, fmt.Sprintf("race%d", w)))
-		buf := &bytes.Buffer{}
-		cmd.Stdout, cmd.Stderr = buf, buf
-		if err := cmd.Start(); err != nil {
-			fmt.Fprintln(os.Stderr, "cannot start worker:", err)
-			return 2
-		}
-		jobs = append(jobs, job{cmd, out, buf})
+		queue = append(queue, &job{from: from, to: to})
 	}
 	merged := workerOut{Property: p.ID, Faults: map[string]int{}, Probes: map[string]int{}}
 	hashes := map[uint64]bool{}
-	// watchdog: workers get the wall budget plus a grace period
-	timer := time.AfterFunc(time.Until(deadline)+5*time.Minute, func() {
-		for _, j := range jobs {
-			j.cmd.Process.Kill()
+	nprocs := 0
+	type doneMsg struct {
+		j   *job
+		err error
+	}
+	doneCh := make(chan doneMsg, len(queue))
+	running := 0
+	next := 0
+	var faultMsg string
+	start := func(j *job) bool {
+		j.out = filepath.Join(tmp, fmt.Sprintf("w%d.json", j.from))
+		racelog := filepath.Join(tmp, fmt.Sprintf("race%d", j.from))
+		cmd := childCmd("-sim.cmd=worker", "-sim.prop="+p.ID, "-sim.tier="+tier, fmt.Sprintf("-sim.seed=%d", base),
+			fmt.Sprintf("-sim.from=%d", j.from), fmt.Sprintf("-sim.to=%d", j.to), "-sim.out="+j.out,
+			fmt.Sprintf("-sim.deadline=%d", deadline.Unix()))
+		cmd.Env = append(cmd.Env, "SIM_RACE_LOG="+racelog, "GORACE=halt_on_error=0 exitcode=0 log_path="+racelog)
+		j.buf = &bytes.Buffer{}
+		cmd.Stdout, cmd.Stderr = j.buf, j.buf
+		if err := cmd.Start(); err != nil {
+			faultMsg = "cannot start worker: " + err.Error()
+			return false
 		}
-	})
-	defer timer.Stop()
-	for _, j := range jobs {
-		err := j.cmd.Wait()
+		j.cmd = cmd
+		nprocs++
+		// watchdog: the wall budget plus a grace period
+		timer := time.AfterFunc(time.Until(deadline)+5*time.Minute, func() { cmd.Process.Kill() })
+		go func() {
+			err := cmd.Wait()
+			timer.Stop()
+			doneCh <- doneMsg{j, err}
+		}()
+		return true
+	}
+	for (next < len(queue) || running > 0) && faultMsg == "" {
+		for running < nworkers && next < len(queue) && time.Now().Before(deadline) {
+			if !start(queue[next]) {
+				break
+			}
+			next++
+			running++
+		}
+		if running == 0 {
+			break
+		}
+		d := <-doneCh
+		running--
 		var wo workerOut
-		b, rerr := os.ReadFile(j.out)
+		b, rerr := os.ReadFile(d.j.out)
 		if rerr != nil || json.Unmarshal(b, &wo) != nil {
-			fmt.Fprintf(os.Stderr, "HARNESS-FAULT: worker produced no result (%v)\n%s\n", err, tail(j.buf.String(), 4000))
-			return 2
+			faultMsg = fmt.Sprintf("worker [%d,%d) produced no result (%v)\n%s", d.j.from, d.j.to, d.err, tail(d.j.buf.String(), 4000))
+			break
 		}
 		if wo.Fault != "" {
-			fmt.Fprintf(os.Stderr, "HARNESS-FAULT: %s\n", wo.Fault)
-			return 2
+			faultMsg = wo.Fault
+			break
 		}
 		merged.Runs += wo.Runs
 		for _, h := range wo.Hashes {
@@ -555,6 +649,15 @@ func parentRun(p *Prop, tier string, base uint64, nworkers int) int {
 			merged.Samples = append(merged.Samples, wo.Samples...)
 		}
 		merged.Violations = append(merged.Violations, wo.Violations...)
+	}
+	if faultMsg != "" {
+		for _, j := range queue {
+			if j.cmd != nil && j.cmd.Process != nil {
+				j.cmd.Process.Kill()
+			}
+		}
+		fmt.Fprintf(os.Stderr, "HARNESS-FAULT: %s\n", faultMsg)
+		return 2
 	}
 	// distinct violations by (class,key)
 	known := loadKnown()
@@ -616,7 +719,13 @@ func parentRun(p *Prop, tier string, base uint64, nworkers int) int {
 		r := vres{v: sv, replay: replay}
 		for i := range known {
 			k := &known[i]
-			if k.Property == p.ID && k.Status == "known" && k.Class == sv.Class && k.Key == sv.Key {
+			applies := k.Property == p.ID
+			for _, a := range k.AlsoIn {
+				if a == p.ID {
+					applies = true
+				}
+			}
+			if applies && k.Status == "known" && k.Class == sv.Class && k.Key == sv.Key {
 				r.known = k
 			}
 		}
@@ -625,7 +734,7 @@ func parentRun(p *Prop, tier string, base uint64, nworkers int) int {
 	unknown := 0
 	for _, r := range results {
 		if r.known != nil {
-			fmt.Printf("KNOWN-FINDING: property=%s %s\n", p.ID, r.known.What)
+			fmt.Printf("KNOWN-FINDING: property=%s %s\n", r.known.Property, r.known.What)
 		} else {
 			unknown++
 			fmt.Printf("VIOLATION property=%s replay=%s\n", p.ID, r.replay)
@@ -686,25 +795,25 @@ func parentRun(p *Prop, tier string, base uint64, nworkers int) int {
 		"violations":  unknown,
 		"assumptions": p.Assumptions,
 		"coverage": map[string]interface{}{
-			"evaluations":              merged.Runs,
-			"planned_evaluations":      total,
-			"distinct_nontrivial":      len(hashes),
-			"rule":                     p.Rule,
-			"samples":                  samples,
-			"exhaustive":               p.Enumerate != nil && merged.Runs == total,
-			"runs_per_hour":            float64(merged.Runs) / wall * 3600,
-			"seeds":                    map[string]interface{}{"base": base, "first_run_seed": runSeed(base, p.ID, 0), "last_run_seed": runSeed(base, p.ID, total-1), "derivation": "mix(VERIF_SEED, hash(property), run_index)"},
-			"simulated_time_s":         float64(merged.SimNanos) / 1e9,
+			"evaluations":                       merged.Runs,
+			"planned_evaluations":               total,
+			"distinct_nontrivial":               len(hashes),
+			"rule":                              p.Rule,
+			"samples":                           samples,
+			"exhaustive":                        p.Enumerate != nil && merged.Runs == total,
+			"runs_per_hour":                     float64(merged.Runs) / wall * 3600,
+			"seeds":                             map[string]interface{}{"base": base, "first_run_seed": runSeed(base, p.ID, 0), "last_run_seed": runSeed(base, p.ID, total-1), "derivation": "mix(VERIF_SEED, hash(property), run_index)"},
+			"simulated_time_s":                  float64(merged.SimNanos) / 1e9,
 			"scheduler_decisions_or_statements": merged.Steps,
-			"faults_fired":             faults,
-			"probes":                   probes,
-			"gaps_probes_at_zero":      gaps,
-			"real_vs_stub":             p.RealVsStub,
-			"violations_found":         vlist,
-			"violating_runs":           merged.NViol,
-			"workers":                  len(jobs),
-			"race_detector":            sim.RaceEnabled,
-			"explanation":              p.Explanation,
+			"faults_fired":                      faults,
+			"probes":                            probes,
+			"gaps_probes_at_zero":               gaps,
+			"real_vs_stub":                      p.RealVsStub,
+			"violations_found":                  vlist,
+			"violating_runs":                    merged.NViol,
+			"workers":                           nprocs,
+			"race_detector":                     sim.RaceEnabled,
+			"explanation":                       p.Explanation,
 		},
 	}
 	os.MkdirAll(filepath.Join(verifRoot(), "evidence"), 0o755)
@@ -730,4 +839,11 @@ func firstLines(s string, n int) string {
 		l = l[:n]
 	}
 	return strings.Join(l, "\n  ")
+}
+
+func clip(s string, n int) string {
+	if len(s) > n {
+		return s[:n] + "\n...[truncated]"
+	}
+	return s
 }
